@@ -293,10 +293,22 @@ func AnalyseMethod(fset *token.FileSet, fd *ast.FuncDecl) *Method {
 				}
 				nc := ctx{guards: append(append([]string{}, c.guards...), newGuards...), loops: c.loops, conds: append(append([]string{}, c.conds...), exprStr(fset, x.Cond))}
 				// assignments to plain.F directly inside (defaults)
+				locals := map[string]string{} // v := <expr> earlier in this block
 				for _, bs := range x.Body.List {
 					if as, ok := bs.(*ast.AssignStmt); ok && len(as.Lhs) == 1 {
+						if id, isID := as.Lhs[0].(*ast.Ident); isID && as.Tok == token.DEFINE {
+							locals[id.Name] = exprStr(fset, as.Rhs[0])
+							continue
+						}
 						if f, _ := fieldOfSubject(fset, as.Lhs[0]); f != "" && strings.HasPrefix(exprStr(fset, as.Lhs[0]), "plain.") {
-							m.Assigns = append(m.Assigns, Assign{Field: f, Expr: exprStr(fset, as.Rhs[0]), Guard: exprStr(fset, x.Cond), Init: initStr, Top: t, Line: line(as)})
+							rhs := exprStr(fset, as.Rhs[0])
+							// a pointer field takes the address of a local that holds the literal: report the literal
+							if u, isU := as.Rhs[0].(*ast.UnaryExpr); isU && u.Op == token.AND {
+								if id, isID := u.X.(*ast.Ident); isID && locals[id.Name] != "" {
+									rhs = "&(" + locals[id.Name] + ")"
+								}
+							}
+							m.Assigns = append(m.Assigns, Assign{Field: f, Expr: rhs, Guard: exprStr(fset, x.Cond), Init: initStr, Top: t, Line: line(as)})
 						}
 					}
 				}
